@@ -465,3 +465,18 @@ Theorem find_asset_longest_max order uri :
               forall b, In b order -> asset_matches uri b = true -> (length b <= length a)%nat
   end.
 Proof. exact (find_asset_longest_spec order uri). Qed.
+
+(** * The ingester manager as found (before fix commit ee6ff88): a really unordered pair *)
+From Verif Require Import Conc.
+
+Theorem ingester_asfound_races :
+  let w := mkAccess "ingesters[]" "cmafIngesterMgr.NewCmafIngester" true RHandler [] in
+  let r := mkAccess "ingesters[]" "createGetCmafIngesterInfoHdlr$closure" false RHandler [] in
+  races multi_all w r = true /\
+  valid multi_all [w; r] (unordered_trace w r "none") /\
+  ~ hb (unordered_trace w r "none") 1 2.
+Proof.
+  split; [vm_compute; reflexivity|]. split.
+  - apply unordered_trace_valid; try reflexivity. intros lk [].
+  - apply unordered_trace_not_hb.
+Qed.
